@@ -143,3 +143,45 @@ pub fn walker_probes(w: &Walker, out: &mut Outcome) {
         Source::Glob { .. } => out.probe("source:glob"),
     }
 }
+
+/// `$R`-normalised text back to the real path text.
+pub fn denorm(text: &str, root_text: &str) -> String {
+    match text.strip_prefix(R) {
+        Some(rest) => format!("{}{}", root_text, rest),
+        None => text.to_string(),
+    }
+}
+
+/// Root-relative path text of world path `wp` for walker `w` (the path relative to the root
+/// segment: the base for unrooted globs and path walks, the whole path for rooted globs).
+pub fn root_relative(_w: &Walker, space: &Space, wp: &str) -> String {
+    if is_under(wp, &space.start) {
+        space.rel(wp)
+    }
+    else {
+        wp.to_string()
+    }
+}
+
+/// Source of an underlying walk for the stack profiles: a path walk or any C02-shaped glob walk.
+pub fn underlying_source(
+    g: &mut crate::gen::Gen,
+    model: &Model,
+    base: &str,
+    stats: &mut GenStats,
+) -> Source {
+    if g.rng.chance(4, 10) {
+        return Source::Path;
+    }
+    for _ in 0..6 {
+        let (e, r) = g.walk_glob(model, base, 1, true, &mut stats.rejections);
+        if !prefix_touches_link(model, base, &e, r) {
+            return Source::Glob { expr: e, rooted: r };
+        }
+        stats.restricted += 1;
+    }
+    Source::Glob {
+        expr: "**".to_string(),
+        rooted: false,
+    }
+}
